@@ -344,6 +344,15 @@ func c19Fixed(c *C) {
 		{"{% macro w3(n) %}{% filter vprobe_a:n %}{% for i in lv %}{% if n > 0 and forloop.First %}{{ w3(n - 1) }}{% endif %}{{ i }}{% endfor %}{% endfilter %}{% endmacro %}{{ w3(1) }}",
 			"a(a(xyz:0)xyz:1)"},
 		{"-{{ -5|add:2 }}|{{ -2.5|add:1 }}|{{ 0 - 5|add:2 }}|{% if -5|add:2 == -7 %}y{% endif %}|{{ -lst|length }}", "--7|-3.500000|-7|y|-4"},
+		// parameters written as list literals: their items are expressions of the current scope like any other argument
+		{"{% for x in lv %}{{ \"\"|default:[x, \"k\"]|join:\"-\" }};{% endfor %}", "x-k;y-k;z-k;"},
+		{"{% macro lm(a) %}{{ nv|default_if_none:[a, p|upper, a + 1]|join:\"+\" }}{% endmacro %}{{ lm(1) }}|{{ lm(5) }}", "1+OUTER+2|5+OUTER+6"},
+		{"{% for x in lv %}{% with p=x %}{{ \"\"|default:[p, 1]|join:\"\" }}{% endwith %}{% endfor %}", "x1y1z1"},
+		{"{% for x in lv %}{{ [x, \"lit\"]|join:\"\" }}{{ \"\"|default:[x]|first|vprobe_a:x }}{% endfor %}", "xlita(x:x)ylita(y:y)zlita(z:z)"},
+		// the filter tag applies its chain to the RENDERED body: its arguments are evaluated when the filters are applied,
+		// in the scope as the body left it (the body shares the tag's scope)
+		{"{% filter default:fallback %}{% set fallback = \"none\" %}{% endfilter %}", "none"},
+		{"{% set w = \"old\" %}{% filter vprobe_a:w %}{% set w = \"new\" %}body{% endfilter %}{{ w }}", "a(body:new)new"},
 		{"{% widthratio 1|add:1 4 100|add:100 %}", "100"}, {"{{ 5|vprobe_a|length }}", "5"}, {"{{ sv|length|vprobe_a }}", "a(11:)"},
 	}
 	for _, k := range cases {
@@ -357,11 +366,11 @@ func c19Fixed(c *C) {
 	}
 	// twice on one compiled template with different contexts (a remembered parameter would show)
 	set, _ := newSet(emptySetFiles)
-	tpl, err := set.FromString("{% autoescape off %}{{ \"n=\"|vprobe_a:p|vprobe_b:\";\" }}{{ \"m\"|add:p|add:\"!\" }}{% endautoescape %}")
+	tpl, err := set.FromString("{% autoescape off %}{{ \"n=\"|vprobe_a:p|vprobe_b:\";\" }}{{ \"m\"|add:p|add:\"!\" }}{{ \"\"|default:[p, \"x\"]|join:\"-\" }}{% endautoescape %}")
 	if err == nil {
 		o1, _ := tpl.Execute(pongo2.Context{"p": "one"})
 		o2, _ := tpl.Execute(pongo2.Context{"p": "two"})
-		if o1 != "b(a(n=:one):;)mone!" || o2 != "b(a(n=:two):;)mtwo!" {
+		if o1 != "b(a(n=:one):;)mone!one-x" || o2 != "b(a(n=:two):;)mtwo!two-x" {
 			c.Fail("precedence-or-scope", D{"source": "literal base, variable parameter, literal parameter; two executions", "first": o1, "second": o2})
 			return
 		}
